@@ -88,13 +88,13 @@ package kms
 // the per-region goroutine: one Encrypt request through its own regional client; one entry for its own region on
 // success, none on failure
 //@ func (*AWSKMS).encryptAllRegions$1
-//@   facet C17
+//@   facet C17, C03
 //@   safety C17
 //@   opt no-frame
 //@   requires c.Client != nil && dataKey != nil && ch != nil && !chclosed(ch) && plain(arr(dataKey.Plaintext))
 //@   ensures [C17:region-encrypts-the-data-key-through-its-own-client] ncalls(EncryptKey) == 1 && arg(EncryptKey, 1, keyBytes) == dataKey.Plaintext && arg(EncryptKey, 1, r).Client == c.Client && arg(EncryptKey, 1, r).MasterKeyARN == c.MasterKeyARN
-//@   ensures [C17:one-entry-per-successful-region] retis(EncryptKey, 1, 1, nil) ==> chsent(ch) == old(chsent(ch)) + 1 && lastsent(ch).Region == c.Region && lastsent(ch).ARN == c.MasterKeyARN && lastsent(ch).EncryptedKEK == ret(EncryptKey, 1, 0).CiphertextBlob
-//@   ensures [C17:no-entry-for-a-failed-region] !retis(EncryptKey, 1, 1, nil) ==> chsent(ch) == old(chsent(ch))
+//@   ensures [C17,C03:one-entry-per-successful-region] retis(EncryptKey, 1, 1, nil) ==> chsent(ch) == old(chsent(ch)) + 1 && lastsent(ch).Region == c.Region && lastsent(ch).ARN == c.MasterKeyARN && lastsent(ch).EncryptedKEK == ret(EncryptKey, 1, 0).CiphertextBlob
+//@   ensures [C17,C03:no-entry-for-a-failed-region] !retis(EncryptKey, 1, 1, nil) ==> chsent(ch) == old(chsent(ch))
 
 //@ func (*AWSKMS).encryptAllRegions
 //@   names a, ctx, dataKey, ch
